@@ -354,11 +354,13 @@ Push(x) ==
 
 WrapArray(k) ==
     /\ k <= Len(stack) /\ Room
+    /\ Len(stack) - k < MaxStack
     /\ DepthSeq(LastK(k)) < MaxDepth
     /\ stack' = Replace(k, Arr(LastK(k)))
 
 WrapMap(k) ==
     /\ 2 * k <= Len(stack) /\ Room
+    /\ Len(stack) - 2 * k < MaxStack
     /\ DepthSeq(LastK(2 * k)) < MaxDepth
     /\ \A key \in Keys(LastK(2 * k)) : key.t \in KeyKinds
     /\ DistinctKeys(LastK(2 * k))
